@@ -61,6 +61,8 @@ def _merge(into, r):
         into[k] = sorted(set(into[k]) | set(r[k]))
     for k in ("paths", "solver_ms", "queries", "wall_s"):
         into[k] += r[k]
+    for k, v in r.get("recheck", {}).items():
+        into.setdefault("recheck", {})[k] = into.get("recheck", {}).get(k, 0) + v
     if r["error"] and not into["error"]:
         into["error"] = r["error"]
     if r["undecided"] and not into["undecided"]:
@@ -173,6 +175,9 @@ def main(argv=None):
     a = ap.parse_args(argv)
     prop = a.prop
     tier = "thorough" if a.tier == "thorough" else "quick"
+    os.environ["VERIF_TIER"] = tier          # read by the interpreter (thorough: every discharged VC is re-checked by cvc5)
+    from pyvc import interp as _interp
+    _interp.RECHECK = tier == "thorough"
     seed = int(os.environ.get("VERIF_SEED", "0") or 0)
     t0 = time.time()
     # evidence and replay files of /verif describe /repo itself: a run against a scratch copy (VERIF_REPO, used by
@@ -372,6 +377,29 @@ def main(argv=None):
         "assumptions": assumptions, "wall_s": round(time.time() - t0, 2), "violations": len(viol_lines),
     }
     json.dump(evidence, open(ev_path, "w"), indent=1, default=str)
+
+    # ------------------------------------------------------------------ thorough tier: second solver + native cross-check
+    if tier == "thorough":
+        rc = {}
+        for res in results:
+            for k, v in res.get("recheck", {}).items():
+                rc[k] = rc.get(k, 0) + v
+        evidence["coverage"]["second_solver_recheck"] = dict(rc, solver="cvc5 on the SMT-LIB2 export of every VC z3 discharged",
+                                                             note="DISAGREE makes the obligation undecided")
+        xc = {"ran": False}
+        if hasattr(mod, "replay") and not a.only:
+            # CPython cross-check: the scenario grid of the property's native replay harness runs on the REAL code; it must not
+            # contradict the obligations that were discharged (a failing native scenario with no failing obligation is an
+            # inconsistency between proof and code: checker error)
+            try:
+                r = mod.replay({"id": f"{prop}/cross-check", "model": {}})
+            except Exception as e:
+                r = {"reproduced": None, "note": f"replay harness error: {e!r}"}
+            xc = {"ran": True, "native_scenarios_contradict_the_proof": bool(r.get("reproduced")), "result": {k: r.get(k) for k in ("note", "input", "observed", "expected") if k in r}}
+            if r.get("reproduced") and not failed:
+                errors.append(("native cross-check", f"the native replay grid fails on the real code although every obligation was discharged: {json.dumps(xc['result'], default=str)[:600]}"))
+        evidence["coverage"]["cpython_cross_check"] = xc
+        json.dump(evidence, open(ev_path, "w"), indent=1, default=str)
 
     # ------------------------------------------------------------------ verdict
     for o, f in known:
